@@ -32,7 +32,7 @@ def main():
     na = [{"property_id": p, "reason": NOT_YET.get(p, "check not built yet in this framework revision (planned, see DESIGN.md section 5)")} for p in props if p not in CHECKS]
     m = {
         "version": 1,
-        "setup_cmd": "cd /verif/harness && CARGO_NET_OFFLINE=true cargo build --offline --profile verif --bins",
+        "setup_cmd": "/verif/tools/setup.sh",
         "hooks": {
             "guard": "cargo feature `verif-hooks` of the anstream crate",
             "enable": "the loom harness crate /verif/harness/vloom depends on anstream with features = [\"verif-hooks\"]; no other check needs the hook",
